@@ -93,6 +93,7 @@ def run_tlc(module, cfg, *, workers=1, timeout=900, files=None, env=None, heap="
             jopts = ["-XX:+UseParallelGC", "-XX:ParallelGCThreads=%d" % max(2, min(8, workers)), "-Xmx" + heap, "-Xss16m"]
         if deque:
             jopts.append("-Dtlc2.tool.queue.IStateQueue=StateDeque")
+        jopts.append("-Djava.io.tmpdir=" + d)       # SANY unpacks the standard modules into a temporary directory per run
         cmd = ["java"] + jopts + ["-cp", JAR + ":" + DEPS, "tlc2.TLC",
                                    "-workers", str(workers), "-metadir", os.path.join(d, "meta"),
                                    "-noGenerateSpecTE", "-config", module + ".cfg"]
